@@ -59,6 +59,7 @@ type vfE7Stub struct {
 	srv       *httptest.Server
 	addr      string // host:port
 	up        atomic.Bool
+	postFail  atomic.Int32
 	hasTopic  atomic.Bool
 	mu        sync.Mutex
 	producers []string // symbols (lookupd stubs)
@@ -110,7 +111,16 @@ func (st *vfE7Stub) ServeHTTP(w http.ResponseWriter, r *http.Request) {
 		w.Write(b)
 	}
 	if r.Method != "GET" {
-		reply(map[string]interface{}{})
+		switch st.postFail.Load() {
+		case 1: // e.g. the channel is already gone at this nsqlookupd
+			w.WriteHeader(404)
+			io.WriteString(w, `{"message":"CHANNEL_NOT_FOUND"}`)
+		case 2:
+			w.WriteHeader(500)
+			io.WriteString(w, `{"message":"INTERNAL_ERROR"}`)
+		default:
+			reply(map[string]interface{}{})
+		}
 		return
 	}
 	e2e := map[string]interface{}{"count": 0, "percentiles": nil}
@@ -253,11 +263,13 @@ type vfE7World struct {
 	down     map[string]bool     // symbols that fail every request
 	noTopic  map[string]bool     // nsqd symbols whose /stats has no topic
 	prods    map[string][]string // lookupd symbol → producer symbols
+	postFail map[string]int      // symbols that answer GETs but fail every POST: 404 (1) or 500 (2)
 }
 
 func (c *vfE7Cluster) apply(w vfE7World) {
 	for sym, st := range c.stubs {
 		st.up.Store(!w.down[sym])
+		st.postFail.Store(int32(w.postFail[sym]))
 		st.hasTopic.Store(!w.noTopic[sym])
 		st.mu.Lock()
 		st.producers = w.prods[sym]
@@ -278,7 +290,7 @@ func (c *vfE7Cluster) worldFields(w vfE7World) string {
 		if len(w.prods[l]) > 0 {
 			p = strings.Join(w.prods[l], "+")
 		}
-		lk = append(lk, fmt.Sprintf("%s:%s:%s", l, b(!w.down[l]), p))
+		lk = append(lk, fmt.Sprintf("%s:%s:%s:%s", l, b(!w.down[l]), p, b(!w.down[l] && w.postFail[l] == 0)))
 	}
 	if len(w.lookupds) == 0 {
 		na = w.nsqds
@@ -291,7 +303,7 @@ func (c *vfE7Cluster) worldFields(w vfE7World) string {
 	}
 	sort.Strings(all)
 	for _, n := range all {
-		nd = append(nd, fmt.Sprintf("%s:%s:%s", n, b(!w.down[n]), b(!w.noTopic[n])))
+		nd = append(nd, fmt.Sprintf("%s:%s:%s:%s", n, b(!w.down[n]), b(!w.noTopic[n]), b(!w.down[n] && w.postFail[n] == 0)))
 	}
 	j := func(xs []string) string {
 		if len(xs) == 0 {
@@ -794,6 +806,15 @@ func TestVerifE7Fanout(t *testing.T) {
 		{lookupds: []string{"L0", "L1"}, prods: prods, down: map[string]bool{"N0": true, "N1": true, "N2": true}},
 		{lookupds: []string{"L0", "L1"}, prods: map[string][]string{"L0": {"N0", "X0"}, "L1": {}}},
 		{lookupds: []string{"L1"}, prods: map[string][]string{"L1": {"N2", "N2", "N0"}}},
+		// per-METHOD behaviours: the GETs of the producer lookup are answered, the POSTed command is not
+		{lookupds: []string{"L0", "L1"}, prods: prods, postFail: map[string]int{"L0": 1, "L1": 2}}, // every nsqlookupd POST fails, nsqds healthy
+		{lookupds: []string{"L0", "L1"}, prods: prods, postFail: map[string]int{"L0": 2, "L1": 1}},
+		{lookupds: []string{"L1"}, prods: map[string][]string{"L1": {"N0", "N2"}}, postFail: map[string]int{"L1": 1}},
+		{lookupds: []string{"L0", "L1"}, prods: prods, postFail: map[string]int{"L1": 1}},
+		{lookupds: []string{"L0", "L1"}, prods: prods, postFail: map[string]int{"N1": 2}},
+		{lookupds: []string{"L0", "L1"}, prods: prods, postFail: map[string]int{"N0": 1, "N1": 2, "N2": 1}}, // every nsqd POST fails
+		{lookupds: []string{"L0", "L1"}, prods: prods, postFail: map[string]int{"L0": 1, "L1": 1, "N0": 2, "N1": 2, "N2": 2}},
+		{nsqds: []string{"N0", "N1", "N2"}, postFail: map[string]int{"N1": 1}},
 		{nsqds: []string{"N0", "N1", "N2"}},
 		{nsqds: []string{"N0", "N1", "N2"}, down: map[string]bool{"N1": true}},
 		{nsqds: []string{"N0", "N1", "N2"}, noTopic: map[string]bool{"N0": true, "N2": true}},
